@@ -301,6 +301,23 @@ pub fn gen_big_size(r: &mut Rng) -> u32 {
     }
 }
 
+/// A byte-string value whose encoding is exactly `target` bytes long (head included).
+pub fn bytes_spec_with_encoding_len(target: usize) -> ValSpec {
+    for head in [1usize, 2, 3, 5, 9] {
+        if target < head {
+            continue;
+        }
+        let spec = ValSpec { ty: Ty::Bytes, size: (target - head) as u32, seed: 4242 };
+        if reference_encoding(&spec).map(|p| p.len()) == Some(target) {
+            return spec;
+        }
+    }
+    panic!("no byte string encodes to {target} bytes");
+}
+
+/// The limit every reader and writer is created with ("a max. buffer size of 512KiB").
+pub const DEFAULT_MAX_LEN: usize = 512 * 1024;
+
 /// Overall shape of a framed-I/O run (shared by C14, C15, C16).
 pub struct RunShape {
     /// item 0 is a frame of 64 KiB or more (followed by a few to a couple of dozen small ones)
